@@ -716,6 +716,7 @@ SEQ_CORPUS = [
     ("map", (((1, 2), 5),), [("hash-ref", ((1, 2),)), ("hash-ref", ((2, 1),)), ("snap", ())]),
     ("map", ((1, 10), (2, 20)), [("hash-union-l", (((2, 99), (3, 30)),)), ("hash-union-r", (((1, 77), (4, 40)),)), ("snap", ())]),
     ("set", (1, 2, 3), [("hashset-difference", ((2, 3, 4),)), ("snap", ())]),
+    ("list", (7, 3, -1, 7, -1), [("take", (1,)), ("last", ()), ("snap", ())]),          # last after take at a cell boundary (fixed)
     ("list", (1, 2, 3), [("drop", (5,)), ("snap", ())]),                                  # known finding KF4
 ]
 
